@@ -15,6 +15,7 @@ import (
 // Verification driver (build tag verif only), "T" lines:
 //
 //	T <current package id or -> | <declared package names, by id> | <type>
+//	T <current package id> | <declared package names> | <identifiers declared in the current package> | <type>
 //
 // The type is an s-expression over: b<k> (predeclared name k), ( n <pkg> <name> <args>... ),
 // ( p t ), ( s t ), ( a <len> t ), ( m k v ), ( c <dir> t ), ( f <nparams> t... ), ( v t ) for a
@@ -277,6 +278,12 @@ func verifExprString(e ast.Expr) string {
 
 func verifTypeLine(line string) string {
 	parts := strings.Split(line, "|")
+	var declared []string
+	if len(parts) == 4 {
+		// T <cur> | <package names> | <identifiers declared in the current package> | <type>
+		declared = strings.Fields(parts[2])
+		parts = []string{parts[0], parts[1], parts[3]}
+	}
 	if len(parts) != 3 {
 		return "BAD"
 	}
@@ -291,6 +298,9 @@ func verifTypeLine(line string) string {
 			return "BAD"
 		}
 		cur = v.pkgs[k]
+		for _, name := range declared {
+			cur.Scope().Insert(types.NewVar(token.NoPos, cur, name, types.Typ[types.Int]))
+		}
 	}
 	v.toks = strings.Fields(parts[2])
 	t := v.parse()
